@@ -162,20 +162,22 @@ where
             let sw = ShapeWriter::with_shx(shp.clone(), shx.clone());
             let tw = builder().build_with_dest(dbf.clone());
             let w = Writer::new(sw, tw);
-            // histories made of accepted pairs only: one in two goes through the consuming bulk call instead
+            // histories made of accepted pairs only: one in two hands its second half (all of it when it has fewer than
+            // two calls) to the consuming bulk call, after the first half went through one call per pair
             let bulk = !shapes.is_empty() && c.calls.iter().all(|x| *x == Call::Ok) && (c.calls.len() + c.geoms.len()) % 2 == 0;
-            let mut w_opt = if bulk {
-                let rows: Vec<dbase::Record> = (0..c.calls.len()).map(|k| row(k, Call::Ok)).collect();
-                let cycled: Vec<&K> = (0..c.calls.len()).map(|k| &shapes[k % shapes.len()]).collect();
-                w.write_shapes_and_records(cycled.iter().copied().zip(rows.iter())).map_err(|e| Fail::new("good-call-rejected", format!("write_shapes_and_records with {} pairs: {}", rows.len(), err_str(&e))))?;
-                for k in 0..c.calls.len() {
-                    accepted.push((k, expected_after_read(&shapes[k % shapes.len()].view())));
-                }
-                None
-            } else {
-                Some(w)
-            };
+            let bulk_from = if bulk { c.calls.len() / 2 } else { usize::MAX };
+            let mut w_opt = Some(w);
             for (k, call) in c.calls.iter().enumerate() {
+                if k == bulk_from {
+                    let w = w_opt.take().unwrap();
+                    let rows: Vec<dbase::Record> = (k..c.calls.len()).map(|j| row(j, Call::Ok)).collect();
+                    let cycled: Vec<&K> = (k..c.calls.len()).map(|j| &shapes[j % shapes.len()]).collect();
+                    w.write_shapes_and_records(cycled.iter().copied().zip(rows.iter())).map_err(|e| Fail::new("good-call-rejected", format!("write_shapes_and_records with {} pairs after {} single calls: {}", rows.len(), k, err_str(&e))))?;
+                    for j in k..c.calls.len() {
+                        accepted.push((j, expected_after_read(&shapes[j % shapes.len()].view())));
+                    }
+                    break;
+                }
                 let w = match w_opt.as_mut() {
                     Some(w) => w,
                     None => break,
@@ -184,7 +186,7 @@ where
                 let (ty, res) = if *call == Call::Mismatch {
                     (c.other, dispatch(c.other, WriteOther(w, &c.other_geom, &r)))
                 } else {
-                    let s = &shapes[gi % shapes.len().max(1)];
+                    let s = &shapes[if bulk { k % shapes.len() } else { gi % shapes.len().max(1) }];
                     gi += 1;
                     (c.ty, w.write_shape_and_record(s, &r))
                 };
@@ -207,7 +209,7 @@ where
                             }
                             dispatch(c.other, V(&c.other_geom))
                         } else {
-                            shapes[(gi - 1) % shapes.len()].view()
+                            shapes[if bulk { k % shapes.len() } else { (gi - 1) % shapes.len() }].view()
                         };
                         accepted.push((k, expected_after_read(&view)));
                     }
